@@ -412,10 +412,18 @@ impl GameEnv {
             let mut b = tpl.bytes.clone();
             let new = other_atom(l.len, &mut rng);
             b[l.off..l.off + l.len].copy_from_slice(&new);
-            let (changed, dec) = match run(&b, &mut rng) {
+            let (mut changed, dec) = match run(&b, &mut rng) {
                 Some((_, _, c)) => (c != c0, true),
                 None => (false, false),
             };
+            // ... and by the negated atom (same x-coordinate / absolute value)
+            if let Some(neg) = crate::bind::negated_atom(&tpl.bytes[l.off..l.off + l.len]) {
+                if neg != tpl.bytes[l.off..l.off + l.len] {
+                    let mut b2 = tpl.bytes.clone();
+                    b2[l.off..l.off + l.len].copy_from_slice(&neg);
+                    if let Some((_, _, c)) = run(&b2, &mut rng) { changed = changed && c != c0; }
+                }
+            }
             atoms.push(json!({"path": l.path, "len": l.len, "response": response, "hashed": changed, "decoded": dec,
                               "in_transcript": contains(&tr0, &tpl.bytes[l.off..l.off + l.len])}));
         }
@@ -980,10 +988,17 @@ impl GameEnv {
             let mut b = bytes.clone();
             let new = other_atom(l.len, &mut rng);
             b[l.off..l.off + l.len].copy_from_slice(&new);
-            let (changed, dec) = match run(&b, &mut rng) {
+            let (mut changed, dec) = match run(&b, &mut rng) {
                 Some((_, _, c)) => (c != c0, true),
                 None => (false, false),
             };
+            if let Some(neg) = crate::bind::negated_atom(&bytes[l.off..l.off + l.len]) {
+                if neg != bytes[l.off..l.off + l.len] {
+                    let mut b2 = bytes.clone();
+                    b2[l.off..l.off + l.len].copy_from_slice(&neg);
+                    if let Some((_, _, c)) = run(&b2, &mut rng) { changed = changed && c != c0; }
+                }
+            }
             atoms.push(json!({"path": l.path, "len": l.len, "response": response, "hashed": changed, "decoded": dec,
                               "in_transcript": contains(&tr0, &bytes[l.off..l.off + l.len])}));
         }
